@@ -76,7 +76,10 @@ def render(spec):
         if b.get("grid name"):
             L.append("        grid name: %s" % b["grid name"])
         for c in b["components"]:
-            L.append("        %s:" % c["name"])
+            if c.get("_alias"):
+                L.append("        %s: *%s" % (c["name"], c["_alias"]))
+                continue
+            L.append("        %s:%s" % (c["name"], " &" + c["_anchor"] if c.get("_anchor") else ""))
             if c.get("flags"):
                 L.append("            flags: %s" % c["flags"])
             L.append("            shape: %s" % c["shape"])
@@ -652,6 +655,109 @@ def _(spec):
     spec["nuclide flags"]["HE"] = {"burn": False, "xs": True, "expandTo": None}
 
 
+# ---- sharing: one definition (custom isotopics entry, block design, component anchor) used by
+# several components while a material modification applies to only some of them, in every order.
+# Whatever is built first, every component has the composition the text gives it.
+
+_SHARE_U = {"igniter fuel": (0.3, 0.2), "outer fuel": (0.5, 0.05)}
+
+
+def _share_levels(pattern, iso):
+    """The fuel block at three axial levels; modifications only where pattern has 'M'."""
+
+    def f(spec):
+        if iso:
+            spec.setdefault("custom isotopics", {})["FUELMIX"] = dict(ISO["uzr"])
+            _comp(spec, "fuel", "fuel")["isotopics"] = "FUELMIX"
+        stack = ["fuel", "fuel", "fuel", "plenum"]
+        for an, a in spec["assemblies"].items():
+            u, z = _SHARE_U[an]
+            a.update(blocks=list(stack), heights=[20.0, 15.0, 10.0, 30.0], mesh=[1, 1, 1, 1])
+            a["xs"] = [a["xs"][0]] * 3 + [a["xs"][-1]]
+            pat = list(pattern) + ["-"]
+            a["matmods"] = {"U235_wt_frac": [u if m == "M" else "" for m in pat], "ZR_wt_frac": [z if m == "M" else "" for m in pat]}
+
+    return f
+
+
+for _pat in ("M--", "-M-", "--M", "M-M", "MM-", "-MM"):
+    dev(["hex"], "sharing", "iso-levels-" + _pat)(_share_levels(_pat, True))
+    dev(["hex"], "sharing", "levels-" + _pat)(_share_levels(_pat, False))
+
+
+def _share_designs(modified, iso):
+    """Both designs use the same block (and isotopics); only one design carries modifications."""
+
+    def f(spec):
+        if iso:
+            spec.setdefault("custom isotopics", {})["FUELMIX"] = dict(ISO["uzr"])
+            _comp(spec, "fuel", "fuel")["isotopics"] = "FUELMIX"
+        for k, (an, a) in enumerate(spec["assemblies"].items()):
+            if k != modified:
+                a["matmods"] = {kk: ["" for _ in v] for kk, v in a["matmods"].items()}
+
+    return f
+
+
+for _k, _nm in ((0, "first"), (1, "second")):
+    dev(["hex", "cart"], "sharing", "iso-designs-%s-modified" % _nm)(_share_designs(_k, True))
+    dev(["hex", "cart"], "sharing", "designs-%s-modified" % _nm)(_share_designs(_k, False))
+
+
+def _share_components(modified, iso):
+    """Two UZr components of one block share the isotopics entry; a by-component modification
+    applies to one of them only."""
+
+    def f(spec):
+        b = _block(spec)
+        _insert_before(b, "coolant", comp("extra", "Circle", "UZr", 25.0, 600.0, id=0.0, od=0.4, mult=2.0))
+        if iso:
+            spec.setdefault("custom isotopics", {})["FUELMIX"] = dict(ISO["uzr"])
+            _comp(spec, "fuel", "fuel")["isotopics"] = "FUELMIX"
+            _comp(spec, "fuel", "extra")["isotopics"] = "FUELMIX"
+        for an, a in spec["assemblies"].items():
+            u, z = _SHARE_U[an]
+            fi = _fuelidx(a)
+            n = len(a["blocks"])
+            a["matmods"] = {"by component": {modified: {"U235_wt_frac": [u if k in fi else "" for k in range(n)], "ZR_wt_frac": [z if k in fi else "" for k in range(n)]}}}
+
+    return f
+
+
+for _c in ("fuel", "extra"):
+    dev(["hex", "cart"], "sharing", "iso-components-%s-modified" % _c)(_share_components(_c, True))
+    dev(["hex", "cart"], "sharing", "components-%s-modified" % _c)(_share_components(_c, False))
+
+
+def _share_anchor(pattern, iso):
+    """Two block definitions whose fuel component is one YAML anchor; modifications at one level."""
+
+    def f(spec):
+        if iso:
+            spec.setdefault("custom isotopics", {})["FUELMIX"] = dict(ISO["uzr"])
+            _comp(spec, "fuel", "fuel")["isotopics"] = "FUELMIX"
+        fb = copy.deepcopy(_block(spec))
+        _comp(spec, "fuel", "fuel")["_anchor"] = "comp_fuel_fuel"
+        for c in fb["components"]:
+            if c["name"] == "fuel":
+                c["_alias"] = "comp_fuel_fuel"
+        spec["blocks"]["feed fuel"] = fb
+        stack = ["fuel", "feed fuel", "plenum"]
+        for an, a in spec["assemblies"].items():
+            u, z = _SHARE_U[an]
+            a.update(blocks=list(stack), heights=[20.0, 15.0, 30.0], mesh=[1, 1, 1])
+            a["xs"] = [a["xs"][0]] * 2 + [a["xs"][-1]]
+            pat = list(pattern) + ["-"]
+            a["matmods"] = {"U235_wt_frac": [u if m == "M" else "" for m in pat], "ZR_wt_frac": [z if m == "M" else "" for m in pat]}
+
+    return f
+
+
+for _pat in ("M-", "-M"):
+    dev(["hex"], "sharing", "iso-anchor-" + _pat)(_share_anchor(_pat, True))
+    dev(["hex"], "sharing", "anchor-" + _pat)(_share_anchor(_pat, False))
+
+
 # ---- a third design / specifier
 
 
@@ -820,6 +926,14 @@ CONFLICTS = [
     {"stack", "mesh"},
     {"stack", "mods"},
     {"mods", "isotopics"},
+    {"sharing", "stack"},
+    {"sharing", "heights"},
+    {"sharing", "xs"},
+    {"sharing", "mesh"},
+    {"sharing", "mods"},
+    {"sharing", "isotopics"},
+    {"sharing", "extra"},
+    {"sharing", "extra_mat"},
 ]
 
 
